@@ -283,3 +283,72 @@ def fingerprint():
             except Exception:
                 out.append(-1)
     return tuple(out)
+
+
+_access = [None]
+
+
+def access_lines():
+    """{filename: set(line numbers)} of sigtools source lines that mention process-wide state:
+    a module global bound to a container or to a data-like value (not a function, class or
+    module), or an attribute of that name on a module-level singleton / class.  Found by
+    scanning the AST of the current tree for the names recorded in the baseline -- reads as
+    well as writes, so that check-then-act sequences can be aimed at from both sides."""
+    if _access[0] is not None and _access[0][0] is _baseline[0]:
+        return _access[0][1]
+    import ast
+    levels = _baseline[0] or []
+    global_names = {}       # module file -> names
+    attr_names = set()
+    for owner, values, contents in levels:
+        names = set(contents)
+        for k, v in values.items():
+            if isinstance(v, (types.FunctionType, types.BuiltinFunctionType, type, types.ModuleType)):
+                continue
+            if isinstance(v, (str, bytes, int, float, tuple, frozenset, bool)) and k.isupper():
+                continue        # constants
+            if callable(v) and not _is_container(v):
+                continue
+            names.add(k)
+        if isinstance(owner, types.ModuleType):
+            fn = getattr(owner, '__file__', None)
+            if fn:
+                global_names.setdefault(fn, set()).update(names)
+        else:
+            attr_names.update(n for n in names if n in contents)
+    out = {}
+    for name, m in _modules():
+        fn = getattr(m, '__file__', None)
+        if not fn or not fn.endswith('.py'):
+            continue
+        try:
+            tree = ast.parse(open(fn).read(), fn)
+        except (OSError, SyntaxError):
+            continue
+        gn = global_names.get(fn, set())
+        lines = set()
+        for node in ast.walk(tree):
+            if isinstance(node, ast.Name) and node.id in gn:
+                lines.add(node.lineno)
+            elif isinstance(node, ast.Attribute) and node.attr in attr_names:
+                lines.add(node.lineno)
+        if lines:
+            out[fn] = lines
+    _access[0] = (_baseline[0], out)
+    return out
+
+
+def container_sizes():
+    """Sizes of the captured containers, in a fixed order (to watch a cache fill up)."""
+    levels = _baseline[0]
+    if levels is None:
+        return []
+    out = []
+    for owner, values, contents in levels:
+        for k in contents:
+            cont = contents[k][0]
+            try:
+                out.append(len(cont) if not isinstance(cont, threading.local) else len(cont.__dict__))
+            except Exception:
+                out.append(-1)
+    return out
